@@ -66,6 +66,10 @@ fn const_literals() -> Vec<String> {
     let rows: Vec<String> = (0..r).map(|i| cols[..c].iter().enumerate().map(|(j, (_, k))| match *k { "f64" => format!("{}.5", i + j), "u8" => format!("{}", 10 * i + j), "string" => format!("\"r{}\"", i), _ => (if i % 2 == 0 { "true" } else { "false" }).to_string() }).collect::<Vec<_>>().join(" ")).collect();
     v.push(format!("|{}| {} |", head.join(" "), rows.join(" | ")));
   } }
+  // boundary and zero elements inside containers, containers of rationals / complex numbers, tables with such columns
+  for s in ["[0/1 1/2]", "[1/2; 0/5; 3/4]", "{1/2, 0/2}", "[0 0 0]", "[0u8 255u8]", "[-128<i8> 127<i8> 0<i8>]", "[0u64 18446744073709551615u64]", "[-9223372036854775807<i64> 0<i64>]", "[0.0 -0.0 1.5]", "{1+2i, 3+4i}", "{0+0i, 1+1i}", "[0+0i 2+3i]", "{0, 1}", "{0u8, 255u8}",
+            "|a<r64> b<u8>| 1/2 1 | 0/3 2 |", "|a<c64> b<f64>| 1+2i 1 | 3+4i 2 |", "|a<string> b<bool>| \"\" true | \"é\" false |", "|a<i8> b<u64>| -1 1 | -128 2 |", "|a<f32> b<i16>| 1.5 -1 | 2.5 300 |",
+            "{\"\", \"a\"}", "{true, false}", "{-1.5, 0.0, 1.5}", "{1u64, 2u64, 18446744073709551615u64}"] { v.push(s.to_string()); }
   for s in ["{1, 2, 3}", "{\"a\", \"b\"}", "{}", "{1u8, 2u8}", "{true}", "{1/2, 1/3}", "(1, \"a\", true)", "(1, (2, 3))", "(1u8, 2.5)", "{a: 1, b: \"x\"}", "{a: [1 2 3], b: true}", "{\"a\": 1, \"b\": 2}", "{1: \"x\"}", "[\"\" \"a\"]", "[1/2 3/4]", "[1+2i 3+4i]", "{(1, 2), (3, 4)}", "{{1, 2}, {3}}", "[:A :B]"] { v.push(s.to_string()); }
   v
 }
